@@ -4,13 +4,15 @@ copies /tmp/seed-<PROP>/SEED/<n> to /verif/seeded/<PROP>-<n>/ and writes meta.js
 import sys,os,shutil,json,re
 prop,n,caught,outcome=sys.argv[1:5]
 strength=sys.argv[5] if len(sys.argv)>5 else ""
-src=f"/tmp/seed-{prop}/SEED/{n}"; dst=f"/verif/seeded/{prop}-{n}"
+import os as _os
+rnd=_os.environ.get("SEED_ROUND","")
+src=f"/tmp/seed{rnd}-{prop}/SEED/{n}"; dst=f"/verif/seeded/{prop}-{int(n)+ (2 if rnd=='2' else 0)}"
 if os.path.exists(dst): shutil.rmtree(dst)
 os.makedirs(dst)
 shutil.copy(f"{src}/patch.diff",dst)
 if os.path.isdir(f"{src}/demo"): shutil.copytree(f"{src}/demo",f"{dst}/demo")
 if os.path.exists(f"{src}/notes.md"): shutil.copy(f"{src}/notes.md",dst)
-log=f"/tmp/seedlogs/{prop}-SEED-{n}.log"
+log=f"/tmp/seedlogs/{prop}{('r'+rnd) if rnd else ''}-SEED-{n}.log"
 ver=open(log).read() if os.path.exists(log) else ""
 res=re.findall(r"RESULT .*",ver)
 notes=open(f"{src}/notes.md").read() if os.path.exists(f"{src}/notes.md") else ""
